@@ -1,6 +1,7 @@
 package checks
 
 import (
+	"strconv"
 	"fmt"
 	"math/big"
 	"net/url"
@@ -307,6 +308,32 @@ func c16(r *ev.Run) {
 				r.DistinctS(f + v + obs)
 			}
 		}
+	}
+	// dense sweep: EVERY value 0..70000 and the 300 values around each power of two up to 2^64, as digits and as
+	// period (an overflow test that misses some wraps accepts only some of the values beyond the field's range)
+	{
+		var vals []string
+		for v := 0; v <= 70000; v++ {
+			vals = append(vals, strconv.Itoa(v))
+		}
+		for k := uint(17); k <= 64; k++ {
+			base := new(big.Int).Lsh(big.NewInt(1), k)
+			for d := int64(-150); d < 150; d++ {
+				vals = append(vals, new(big.Int).Add(base, big.NewInt(d)).String())
+			}
+		}
+		for _, f := range []string{"digits", "period"} {
+			for i, v := range vals {
+				c := c16Case{Kind: "parse", Field: f, Value: v, RawURL: "otpauth://" + []string{"totp", "hotp"}[i%2] + "/Iss:acc?secret=JBSWY3DPEHPK3PXP&" + f + "=" + v}
+				obs, bad := parseOnly(c)
+				n2++
+				if bad != "" {
+					r.Fail("parse-only", fmt.Sprintf("sweep %s=%q: %s", f, v, bad), c, bad, obs)
+					break
+				}
+			}
+		}
+		r.Set("parse_only_dense_sweep", map[string]any{"values_per_field": len(vals), "range": "0..70000 and 2^k-150..2^k+149 for k = 17..64"})
 	}
 	for _, raw := range []string{"otpauth://totp/", "otpauth://totp", "otpauth://totp/Iss", "otpauth://xotp/I:a?secret=A", "http://totp/I:a?secret=A", "otpauth:///I:a", "otpauth://totp/I:a", "otpauth://totp/I:a?algorithm=md5", "otpauth://totp/I:a?algorithm=sha256", "otpauth://totp/%zz", "otpauth://totp/I%3Aa?secret=A", "otpauth://totp/I:a:b?secret=A"} {
 		c := c16Case{Kind: "parse", RawURL: raw}
